@@ -428,7 +428,7 @@ impl World for C20 {
             }
             9 => (
                 Kind::Packed {
-                    which: rng.below(4) as u8,
+                    which: rng.below(10) as u8,
                     channels: [rng.below(256) as u8, rng.below(256) as u8, rng.below(256) as u8, *rng.pick(&[0u8, 255, 128, 1, 254])],
                     ser_fail: if faults && rng.chance(1, 2) { Some(rng.below(3) as u16) } else { None },
                     de_fail: if faults && rng.chance(1, 2) { Some(rng.below(3) as u16) } else { None },
@@ -1261,7 +1261,7 @@ fn execute(c: &'static CaseDesc, inner: Option<&'static CaseDesc>, vals: &[f64],
             let peer = Peer::new(de_fail.map(|k| k as usize));
             match (p.replay)(&tok, &Presentation::plain(), &peer) {
                 Ok(back) => {
-                    if back != *channels {
+                    if back[..p.used] != channels[..p.used] {
                         ctx.fail("round-trip:as_uint", &key, format!("{}: {channels:?} came back as {back:?}", p.name));
                         return;
                     }
@@ -1276,7 +1276,7 @@ fn execute(c: &'static CaseDesc, inner: Option<&'static CaseDesc>, vals: &[f64],
             }
             match (p.json)(channels) {
                 Ok((text, back)) => {
-                    if text != uint.to_string() || back != *channels {
+                    if text != uint.to_string() || back[..p.used] != channels[..p.used] {
                         ctx.fail("round-trip:as_uint", &key, format!("{}: JSON form {text:?} (expected {uint}), channels back {back:?}", p.name));
                     }
                 }
